@@ -186,6 +186,32 @@ func c20Gen(c *Ctx) (cs c20Case, cell string) {
 	if cs.HasWord && (optionShaped(cs.Word) || cs.Word == "--") {
 		cs.Word = "w" + cs.Word
 	}
+	if (k/6)%11 == 7 {
+		// very long names and words (beyond any fixed work bound): the distance is still the true one
+		base := ""
+		for len([]rune(base)) < 90 {
+			base += alpha[r.Intn(len(alpha))]
+		}
+		br := []rune(base)
+		if br[0] == '-' {
+			br[0] = 'q'
+		}
+		n1 := string(br[:r.Range(45, 60)])
+		n2 := string(br[:r.Range(66, 80)])
+		n3 := string(br[:65]) + "zz"
+		cs.Visible = []string{n1, n2, n3, "short"}
+		cs.Hidden = nil
+		switch r.Intn(3) {
+		case 0:
+			cs.Word = n1 + string(br[60:90]) // far from everything: enumerate
+		case 1:
+			cs.Word = n2 + "y" // nearest: n2 at distance 1 (n3 shares the first 65 runes)
+		default:
+			cs.Word = string(br[:70]) + "y"
+		}
+		cs.HasWord = true
+		cell = "very-long-names"
+	}
 	return cs, cell
 }
 
